@@ -284,7 +284,7 @@ BUDGET = {"quick": dict(n_random=40, bench_rep=1), "thorough": dict(n_random=600
 
 def run(tier, seed):
     import runner
-    b = BUDGET[tier]
+    b, tier = runner.budget(BUDGET, tier)
     kinds = ["random"] * b["n_random"] + [f"bench:{n}" for n in BENCH] * b["bench_rep"] \
         + [f"shipped:{n}" for n in SHIPPED] + [f"history:{n}" for n in (BENCH[:3] if tier == "quick" else BENCH)]
     tasks = [(seed, i, k, tier) for i, k in enumerate(kinds)]
